@@ -447,3 +447,62 @@ Theorem c06_history_no_permit_no_reached_callback :
     fired s o <> Some true.
 Proof. exact history_no_permit_no_reached_callback. Qed.
 Print Assumptions c06_history_no_permit_no_reached_callback.
+
+(* ====================================================================== *)
+(* Time.  A timed history says, for every run_vote call, how long each colony
+   member's agent needs for its answer, and may assign timeout_seconds between
+   the calls ([ttrace]: every aggregated vote with the timed state it was taken
+   in).  The ballots counted in a call are the ballots cast in THAT call. *)
+
+(* The clock never changes an outcome or the instance: the votes of a timed
+   history (states, scripts, outcomes) and its final state are those of the same
+   history with delays and timeout_seconds assignments erased - for all delays
+   and all timeouts.  Every theorem above about [trace] therefore holds for
+   every vote of every timed history. *)
+Theorem c06_timing_never_changes_an_outcome :
+  forall lg ops ts,
+    map tproj (ttrace lg ts ops) = trace lg (t_q ts) (flat_map untimed ops) /\
+    t_q (tfinal lg ts ops) = final_state lg (t_q ts) (flat_map untimed ops).
+Proof. exact timing_irrelevant_proof. Qed.
+Print Assumptions c06_timing_never_changes_an_outcome.
+
+(* Slow voters are counted, and nobody else is: every aggregated vote of a timed
+   history is the aggregation of exactly one ballot per member of the colony of
+   that moment, cast in that call - no hypothesis on the delays or on
+   timeout_seconds (a member slower than timeout_seconds is still waited for;
+   no member is replaced by a ballot from an earlier call). *)
+Theorem c06_timed_vote_counts_its_own_ballots :
+  forall lg ops ts s sc d o,
+    In (s, sc, d, o) (ttrace lg ts ops) ->
+    o = aggregate lg (s_cfg (t_q s)) (collect (voters_of (s_colony (t_q s)) sc)) /\
+    (forall r, o = Result r ->
+       r_total r = len (s_colony (t_q s)) /\
+       r_permit r = count_voters (casts Permit) (voters_of (s_colony (t_q s)) sc) /\
+       r_block r = count_voters (casts Block) (voters_of (s_colony (t_q s)) sc) /\
+       r_abstain r = count_voters (casts Abstain) (voters_of (s_colony (t_q s)) sc) /\
+       r_votes r = collect (voters_of (s_colony (t_q s)) sc)).
+Proof. exact timed_vote_proof. Qed.
+Print Assumptions c06_timed_vote_counts_its_own_ballots.
+
+(* No answer is still on its way when vote collection is over: with delays >= 0
+   every member's agent has answered by then, so no ballot of this call can
+   arrive during a later call. *)
+Theorem c06_no_answer_outstanding_after_a_call :
+  forall colony d,
+    (forall j, 0 <= d j) ->
+    Forall (fun a => a <= returns_at colony d) (answer_times 0 0 colony d) /\
+    answered_within colony d = len colony.
+Proof. exact all_answered_proof. Qed.
+Print Assumptions c06_no_answer_outstanding_after_a_call.
+
+(* The vote after ANY run_vote call of a timed history (slow voters, any
+   timeout_seconds, returned / callback raised / abandoned) is decided as if that
+   call had not happened. *)
+Theorem c06_vote_after_any_timed_call_is_fresh :
+  forall lg ts o sc2,
+    call_of o <> None ->
+    let ts' := tstep lg ts o in
+    run_vote lg (s_cfg (t_q ts')) (voters_of (s_colony (t_q ts')) sc2) =
+    run_vote lg (s_cfg (t_q ts)) (voters_of (s_colony (t_q ts)) sc2).
+Proof. exact vote_after_timed_call_proof. Qed.
+Print Assumptions c06_vote_after_any_timed_call_is_fresh.
